@@ -486,6 +486,10 @@ def loadtxt(path, *a, **k):
         return np.loadtxt(path, *a, **k)
     with path.open() as f:
         text = f.read()
+    from vf import fmtstr
+
+    if fmtstr.has_tokens(text):
+        return fmtstr.loadtxt_symbolic(text, **k)
     import warnings
 
     with warnings.catch_warnings():
